@@ -440,8 +440,17 @@ func (hs *serverHandshakeState) validateHttp2Accepted() {
 	c := hs.c
 	if hs.hello.alpnProtocol == "h2" {
 		if !checkCipherSuiteHttp2Accepted(hs.suite.id) || c.vers < VersionTLS12 {
-			hs.hello.alpnProtocol = "http/1.1"
-			c.clientProtocol = "http/1.1"
+			// fall back to http/1.1 only if the client offered it;
+			// otherwise select nothing
+			proto := ""
+			for _, p := range hs.clientHello.alpnProtocols {
+				if p == "http/1.1" {
+					proto = p
+					break
+				}
+			}
+			hs.hello.alpnProtocol = proto
+			c.clientProtocol = proto
 		}
 	}
 }
